@@ -31,6 +31,9 @@ structure ArmOk (nbits size N logpack stride : Nat) : Prop where
   small : size < W
   unpacked : stride = 0 → logpack = 0 ∧ N = 16
   words : (nbits + 63) / 64 ≤ MINT_WORDS
+  /-- the packing factor does not exceed the convolution length (rows with `A = 4, 8` are only
+  reached by sizes above 16384) -/
+  pack : 2 ≤ size → 2 ^ logpack ≤ size
 
 /-- **Every arm of the dispatch table of `convolve_modn` meets the preconditions of
 `_convolve_modn`** (the table is regenerated from the source into `Ymq.Gen.Params`). -/
@@ -47,21 +50,21 @@ theorem dispatch_ok' (nbits size fsize logpack stride : Nat)
   split_ifs at h with h1 h2 h3 h4 h5 h6 h7 h8 <;>
     (simp only [Option.some.injEq, Prod.mk.injEq] at h
      obtain ⟨rfl, rfl, rfl⟩ := h)
-  · refine ⟨16, by decide, ⟨?_, by decide, by decide, by omega, ⟨by decide, by norm_num; omega, by decide⟩, by omega, by simp, by omega⟩⟩
+  · refine ⟨16, by decide, ⟨?_, by decide, by decide, by omega, ⟨by decide, by norm_num; omega, by decide⟩, by omega, by simp, by omega, fun _ => by norm_num; omega⟩⟩
     exact bound_aux _ _ 8192 150 _ h1.2 h1.1 (by decide +kernel)
-  · refine ⟨16, by decide, ⟨?_, by decide, by decide, by omega, ⟨by decide, by norm_num; omega, by decide⟩, by omega, by simp, by omega⟩⟩
+  · refine ⟨16, by decide, ⟨?_, by decide, by decide, by omega, ⟨by decide, by norm_num; omega, by decide⟩, by omega, by simp, by omega, fun _ => by norm_num; omega⟩⟩
     exact bound_aux _ _ 4096 500 _ h2.2 h2.1 (by decide +kernel)
-  · refine ⟨32, by decide, ⟨?_, by decide, by decide, by omega, ⟨by decide, by norm_num; omega, by decide⟩, by omega, by simp, by omega⟩⟩
+  · refine ⟨32, by decide, ⟨?_, by decide, by decide, by omega, ⟨by decide, by norm_num; omega, by decide⟩, by omega, by simp, by omega, fun _ => by norm_num; omega⟩⟩
     exact bound_aux _ _ 16384 310 _ h3.2 h3.1 (by decide +kernel)
-  · refine ⟨64, by decide, ⟨?_, by decide, by decide, by omega, ⟨by decide, by norm_num; omega, by decide⟩, by omega, by simp, by omega⟩⟩
+  · refine ⟨64, by decide, ⟨?_, by decide, by decide, by omega, ⟨by decide, by norm_num; omega, by decide⟩, by omega, by simp, by omega, fun _ => by norm_num; omega⟩⟩
     exact bound_aux _ _ 65536 280 _ h4.2 h4.1 (by decide +kernel)
-  · refine ⟨64, by decide, ⟨?_, by decide, by decide, by omega, ⟨by decide, by norm_num; omega, by decide⟩, by omega, by simp, by omega⟩⟩
+  · refine ⟨64, by decide, ⟨?_, by decide, by decide, by omega, ⟨by decide, by norm_num; omega, by decide⟩, by omega, by simp, by omega, fun _ => by norm_num; omega⟩⟩
     exact bound_aux _ _ 32768 500 _ h5.2 hb' (by decide +kernel)
-  · refine ⟨128, by decide, ⟨?_, by decide, by decide, by omega, ⟨by decide, by norm_num; omega, by decide⟩, by omega, by simp, by omega⟩⟩
+  · refine ⟨128, by decide, ⟨?_, by decide, by decide, by omega, ⟨by decide, by norm_num; omega, by decide⟩, by omega, by simp, by omega, fun _ => by norm_num; omega⟩⟩
     exact bound_aux _ _ 262144 245 _ h6.2 h6.1 (by decide +kernel)
-  · refine ⟨128, by decide, ⟨?_, by decide, by decide, by omega, ⟨by decide, by norm_num; omega, by decide⟩, by omega, by simp, by omega⟩⟩
+  · refine ⟨128, by decide, ⟨?_, by decide, by decide, by omega, ⟨by decide, by norm_num; omega, by decide⟩, by omega, by simp, by omega, fun _ => by norm_num; omega⟩⟩
     exact bound_aux _ _ 131072 500 _ h7.2 hb' (by decide +kernel)
-  · refine ⟨256, by decide, ⟨?_, by decide, by decide, by omega, ⟨by decide, by norm_num; omega, by decide⟩, by omega, by simp, by omega⟩⟩
+  · refine ⟨256, by decide, ⟨?_, by decide, by decide, by omega, ⟨by decide, by norm_num; omega, by decide⟩, by omega, by simp, by omega, fun _ => by norm_num; omega⟩⟩
     exact bound_aux _ _ 524288 500 _ h8.2 hb' (by decide +kernel)
 
 end Ymq.Kronecker
